@@ -384,6 +384,40 @@ class Gen:
             st['props'] = {'hash': ' # ', 'items': self.props('local', 'circle'), 'note': ''}
         return st
 
+    def composite(self, fr):
+        """a composite: header with properties, 2..4 member lines of which all but the last end in `||`.
+        Restrictions (candidate findings reported to the coordinator, see validated_only): the header's property
+        VALUES are lower case (the real parser lower-cases them), the header is spelled `# composite(` or
+        `composite(`, and the last member is a supported shape."""
+        rng = self.rng
+        items = [{'key': 'composite', 'eq': '=', 'd': '', 'val': '1'}]
+        if rng.random() < 0.9:
+            for p in self.props('local', None):
+                if p['key'].lower() not in ('composite',):
+                    items.append(dict(p, val=p['val'].lower()))
+        if rng.random() < 0.3 and not any(p['key'].lower() == 'include' for p in items):
+            items.append({'key': 'include', 'eq': '=', 'd': '', 'val': '0'})
+        f = fr or 'image'
+        head = {'t': 'composite', 'pre': '# ' if rng.random() < 0.8 else '', 'word': 'composite',
+                'args': self.pos_pair(f, True) + [dec(rng, 0, 359, True)], 'items': items}
+        if not head['pre']:
+            head['word'] = vcase(rng, 'composite')
+        out = [head]
+        n = rng.choice([2, 2, 3, 3, 4])
+        for i in range(n):
+            last = i == n - 1
+            r = rng.random()
+            if not last and r < 0.12:
+                st = self.badshape(fr)
+            elif not last and r < 0.2 and fr is not None:
+                st = self.region(fr, unrep=True)
+            else:
+                st = self.region(fr)
+            if not last:
+                st['cont'] = rng.choice([' ||', ' ||', '||', ' || '])
+            out.append(st)
+        return out
+
     def comment(self):
         rng = self.rng
         body = rng.choice(['Region file format: DS9 version 4.1', 'Filename: foo.fits', 'a comment', 'circle(1,2,3)',
@@ -401,10 +435,16 @@ class Gen:
             stmts.append({'t': 'global', 'word': vcase(rng, 'global'), 'items': self.props('global', None)})
         cur = None
         n = rng.randint(1, 12 if self.tier == 'quick' else 20)
-        kinds = ['frame', 'badframe', 'global', 'comment', 'blank', 'badshape', 'unrep', 'region']
+        kinds = ['frame', 'badframe', 'global', 'comment', 'blank', 'badshape', 'unrep', 'region', 'composite']
         for _ in range(n):
-            k = rng.choices(kinds, [40, 5, 6, 6, 3, 6, 0, 34] if cur is None else [14, 5, 6, 6, 3, 8, 5, 53])[0]
-            if k == 'frame':
+            k = rng.choices(kinds, [40, 5, 6, 6, 3, 6, 0, 34, 2] if cur is None else [14, 5, 6, 6, 3, 8, 5, 53, 9])[0]
+            if k == 'composite':
+                stmts += self.composite(cur)
+                if rng.random() < 0.35:
+                    stmts += self.composite(cur)         # two composites in a row
+                if rng.random() < 0.7:
+                    stmts.append(self.region(cur))       # a plain region after it must not inherit anything
+            elif k == 'frame':
                 w = rng.choice(FRAME_WORDS)
                 stmts.append({'t': 'frame', 'word': vcase(rng, w)})
                 cur = FRAME_OF[w]
@@ -456,6 +496,10 @@ def stmt_text(s, plain=None):
         return s['text']
     if t == 'blank':
         return s['text']
+    if t == 'composite':
+        # DS9 writes `# composite(x,y,angle) || composite=1 props`; the properties follow the `||` without a `#`
+        return (s['pre'] + s['word'] + '(' + ','.join(num_text(a) for a in s['args']) + ') || '
+                + ' '.join(prop_text(p) for p in s['items']))
     args = [num_text(a) for a in s['args']]
     if plain == 'paren':
         body = s['word'] + '(' + ','.join(args) + ')'
@@ -467,6 +511,8 @@ def stmt_text(s, plain=None):
             body += a + (s['seps'][i] if i < len(args) - 1 else '')
         body += s['close']
     out = (s['lead'] if plain is None else '') + s['sign'] + body
+    if s.get('cont'):
+        out += s['cont']             # ' ||': the line belongs to a composite that goes on
     if s.get('props'):
         pr = s['props']
         out += pr['hash'] + ' '.join(prop_text(p) for p in pr['items'])
@@ -485,6 +531,11 @@ def stmt_toks(s):
         return ['#', {'c': s['text'].lstrip('#').strip()}]
     if t == 'blank':
         return []
+    if t == 'composite':
+        out = (['#'] if s['pre'] else []) + [{'w': s['word']}, '(']
+        for i, a in enumerate(s['args']):
+            out += [num_tok(a)] + ([','] if i < len(s['args']) - 1 else [])
+        return out + [')', '||'] + [prop_tok(p) for p in s['items']]
     out = []
     if s['sign']:
         out.append(s['sign'])
@@ -497,6 +548,8 @@ def stmt_toks(s):
             out.append(',')
     if ')' in s['close']:
         out.append(')')
+    if s.get('cont'):
+        out.append('||')
     if s.get('props'):
         out.append('#')
         out += [prop_tok(p) for p in s['props']['items']]
@@ -794,7 +847,9 @@ class Check(PropertyCheck):
     rule = ('grammar of the supported DS9 subset: files = sequences (1..12 statements quick, 1..20 thorough) of frame lines '
             '(image fk5 j2000 fk4 b1950 icrs galactic ecliptic), unsupported frames (physical detector amplifier linear tile wcs wcsa..), '
             'global lines, comments, blanks, region lines (circle ellipse box polygon line point text annulus; multi-radius '
-            'annulus/ellipse/box), unsupported shapes (vector ruler compass projection panda epanda bpanda) and region lines whose '
+            'annulus/ellipse/box), composites (header `# composite(x,y,a) || composite=1 props`, 2..4 members of which all but the last '
+            'end in `||`, members with own properties / signs / unsupported shapes, include=0 in the header, two composites in a row, a plain '
+            'region after the composite), unsupported shapes (vector ruler compass projection panda epanda bpanda) and region lines whose '
             'numbers are not representable in the frame (arcsec in image, 10i in fk5, physical p), in any order; '
             'x notation (bare, " \' d r i, a:b:c, ahbmcs, adbmcs, signs, padding) x separators (newline / ; , optional parentheses, '
             'commas or blanks) x keyword and key case x include sign x property lists (color width fill dash dashlist font point '
@@ -824,7 +879,11 @@ class Check(PropertyCheck):
         'F101-F104 (global include=0 ignored, numeric-looking text converted, foreign delimiter characters stripped, ";" inside a '
         'delimited value splitting the line) are FIXED in /repo; their input classes are generated like any other and nothing is '
         'excused: a regression is a VIOLATION; witnesses are kept in corpus/C10/',
-        'outside the grammar (nothing claimed): composite, "# text(...)" spelling, box/ellipse without angle (the real parser raises '
+        'composite restrictions of the generator (the unchanged parser deviates; reported as candidate findings, not excused): header '
+        'property values are generated in lower case (the parser lower-cases them: color=Red -> red, text={Hi} -> hi), the header is spelled '
+        '"# composite(" or "composite(" ("# Composite(" is read as a comment), the last member is a supported shape (an unsupported shape '
+        'without "||" as last member does not end the composite in the parser)',
+        'outside the grammar (nothing claimed): "# text(...)" spelling, box/ellipse without angle (the real parser raises '
         'ValueError for the whole file), wrong parameter counts, text containing its own closing delimiter, valueless flags (treated as '
         'comment text), duplicate keys in one property list, tag in a global line, angles in arcsec/arcmin, exponent notation and '
         'numbers with a trailing dot ("24." as a size/angle raises KeyError in the real parser), longitude wrap; the contradictory '
@@ -878,7 +937,7 @@ class Check(PropertyCheck):
                 continue
             if s['t'] == 'frame':
                 dead = False
-            if s['t'] == 'badshape' or (dead and s['t'] == 'region'):
+            if s['t'] == 'badshape' or (dead and s['t'] in ('region', 'composite')):
                 continue
             keep.append(s)
         V['nobad'] = parse_real(render_text(relayout(keep, 'nl')))
@@ -1122,6 +1181,8 @@ class Check(PropertyCheck):
             feats.append('unsupported')
         if any(s['t'] == 'global' for s in stmts):
             feats.append('global')
+        if any(s['t'] == 'composite' for s in stmts):
+            feats.append('composite')
         if any(len(l) > 1 for l in case['lines']):
             feats.append('semicolon')
         return cls + ('/' + '+'.join(feats) if feats else '')
